@@ -41,7 +41,7 @@ BOUNDS = {'quick': 'protocol depth 3 over the full alphabet (every value of 6 op
 
 OPTS = {'pars': ['auto', False, True], 'trivia': [True, 1, False, 0],  # trivia: True == 1 and False == 0 mean different things
         'norm': [False, True], 'docstr': [True, False],
-        'raw': [False, 'auto'], 'pep8space': [True, 1, False]}  # pep8space: 1 == True compare equal and mean different things
+        'raw': [False, 'auto'], 'pep8space': [True, 1, False], 'args_as': [None, 'pos']}  # pep8space: 1 == True compare equal and mean different things
 BAD = [('nosuchoption', 1), ('pars', 'maybe'), ('trivia', 'bogus'), ('docstr', 3), ('to', None)]
 DOCSRC = 'class C:\n    def f(self):\n        """doc\n        more"""\n        return 1'
 
@@ -74,6 +74,12 @@ def probe(fst, persist, explicit=None):
     f = FST('x = 1', 'exec')
     f.body.append('def g(): pass', **({'pep8space': kw['pep8space']} if 'pep8space' in kw else {}))
     out.append(f.src)
+    f = FST('def f(a, *b, c=1, **d): pass', 'exec')  # an impossible conversion must be refused before anything is cut, however the option arrives
+    try:
+        f.body[0].args.get_slice(0, 3, '_all', cut=True, **({'args_as': kw['args_as']} if 'args_as' in kw else {}))
+        out.append(f.src)
+    except Exception as e:  # noqa: BLE001
+        out.append('EXC:' + e.__class__.__name__ + ':' + f.src)
     node = persist.body[0].body[0]
     out.append(node.own_src(**({'docstr': kw['docstr']} if 'docstr' in kw else {})))
     return tuple(out)
